@@ -1310,10 +1310,16 @@ func (r *pilosaRoaringIterator) Next() (key uint64, cType byte, n int, length in
 	// a run container keeps its data after an initial 2 byte length header
 	var runCount uint16
 	if r.currentType == containerRun {
+		// the length header itself must be inside the data
+		if int64(r.currentDataOffset)+runCountHeaderSize > int64(len(r.data)) {
+			r.Done(fmt.Errorf("container %d/%d, key %d, had offset %d, maximum %d",
+				r.currentIdx, r.keys, r.currentKey, r.currentDataOffset, len(r.data)))
+			return r.Current()
+		}
 		runCount = binary.LittleEndian.Uint16(r.data[r.currentDataOffset : r.currentDataOffset+runCountHeaderSize])
 		r.currentDataOffset += 2
 	}
-	if r.currentDataOffset > uint32(len(r.data)) || r.currentDataOffset < headerBaseSize {
+	if r.currentDataOffset >= uint32(len(r.data)) || r.currentDataOffset < headerBaseSize {
 		r.Done(fmt.Errorf("container %d/%d, key %d, had offset %d, maximum %d",
 			r.currentIdx, r.keys, r.currentKey, r.currentDataOffset, len(r.data)))
 		return r.Current()
@@ -1363,10 +1369,16 @@ func (r *officialRoaringIterator) Next() (key uint64, cType byte, n int, length 
 	// a run container keeps its data after an initial 2 byte length header
 	var runCount uint16
 	if r.currentType == containerRun {
+		// the length header itself must be inside the data
+		if int64(r.currentDataOffset)+runCountHeaderSize > int64(len(r.data)) {
+			r.Done(fmt.Errorf("container %d/%d, key %d, had offset %d, maximum %d",
+				r.currentIdx, r.keys, r.currentKey, r.currentDataOffset, len(r.data)))
+			return r.Current()
+		}
 		runCount = binary.LittleEndian.Uint16(r.data[r.currentDataOffset : r.currentDataOffset+runCountHeaderSize])
 		r.currentDataOffset += 2
 	}
-	if r.currentDataOffset > uint32(len(r.data)) || r.currentDataOffset < headerBaseSize {
+	if r.currentDataOffset >= uint32(len(r.data)) || r.currentDataOffset < headerBaseSize {
 		r.Done(fmt.Errorf("container %d/%d, key %d, had offset %d, maximum %d",
 			r.currentIdx, r.keys, r.currentKey, r.currentDataOffset, len(r.data)))
 		return r.Current()
@@ -1381,15 +1393,6 @@ func (r *officialRoaringIterator) Next() (key uint64, cType byte, n int, length 
 		r.currentLen = 1024
 		size = 8192
 	case containerRun:
-		// official format stores runs as start/len, we want to convert, but since
-		// they might be mmapped, we can't write to that memory
-		newRuns := make([]interval16, runCount)
-		oldRuns := (*[65536]interval16)(unsafe.Pointer(r.currentPointer))[:runCount:runCount]
-		copy(newRuns, oldRuns)
-		for i := range newRuns {
-			newRuns[i].last += newRuns[i].start
-		}
-		r.currentPointer = (*uint16)(unsafe.Pointer(&newRuns[0]))
 		r.currentLen = int(runCount)
 		size = r.currentLen * 4
 	}
@@ -1397,6 +1400,18 @@ func (r *officialRoaringIterator) Next() (key uint64, cType byte, n int, length 
 		r.Done(fmt.Errorf("container %d/%d, key %d, had offset %d+%d size, maximum %d",
 			r.currentIdx, r.keys, r.currentKey, r.currentDataOffset, size, len(r.data)))
 		return r.Current()
+	}
+	if r.currentType == containerRun && runCount > 0 {
+		// official format stores runs as start/len, we want to convert, but since
+		// they might be mmapped, we can't write to that memory. (Converted only
+		// now that the runs are known to lie inside the data.)
+		newRuns := make([]interval16, runCount)
+		oldRuns := (*[65536]interval16)(unsafe.Pointer(r.currentPointer))[:runCount:runCount]
+		copy(newRuns, oldRuns)
+		for i := range newRuns {
+			newRuns[i].last += newRuns[i].start
+		}
+		r.currentPointer = (*uint16)(unsafe.Pointer(&newRuns[0]))
 	}
 	r.currentDataOffset += uint32(size)
 	r.lastErr = nil
